@@ -19,7 +19,7 @@ CASE_TIMEOUT = {'quick': 20, 'thorough': 120}
 
 
 def floors(tier):
-    return {'distinct_nontrivial': 1500 if tier == 'quick' else 150000, 'generic_sw': 500, 'generic_proj': 500,
+    return {'distinct_nontrivial': 1500 if tier == 'quick' else 80000, 'generic_sw': 500, 'generic_proj': 500,
             'generic_normsq': 200, 'own_composition_compared': 1200, 'blades_dropped_by_presimplification': 200,
             'cse_false_cases': 100}
 
